@@ -42,7 +42,16 @@ const (
 	phantomCount
 )
 
-const maxCompositeNesting = 20 // protect against malicious fonts
+const (
+	maxCompositeNesting = 20 // protect against malicious fonts
+
+	// The nesting limit alone does not bound the work : composite glyphs may share
+	// their components, so that a chain of n composites with k components each
+	// requires k^n operations. Limit the number of components visited and the
+	// number of points produced for one glyph (same values as Harfbuzz).
+	maxCompositeEdges  = 1024
+	maxCompositePoints = 200000
+)
 
 // use the `glyf` table to fetch the contour points,
 // applying variation if needed.
@@ -50,6 +59,12 @@ const maxCompositeNesting = 20 // protect against malicious fonts
 // It returns false for an invalid glyph (out of range glyph index or component, too deeply nested composite),
 // in which case the content of allPoints must not be used.
 func (f *Face) getPointsForGlyph(gid tables.GlyphID, currentDepth int, allPoints *[]contourPoint /* OUT */) bool {
+	edges := maxCompositeEdges
+	return f.getPointsForGlyphRec(gid, currentDepth, &edges, allPoints)
+}
+
+// [edges] is the number of components which may still be visited
+func (f *Face) getPointsForGlyphRec(gid tables.GlyphID, currentDepth int, edges *int, allPoints *[]contourPoint /* OUT */) bool {
 	// adapted from harfbuzz/src/hb-ot-glyf-table.hh
 
 	if currentDepth > maxCompositeNesting || int(gid) >= len(f.glyf) {
@@ -90,11 +105,18 @@ func (f *Face) getPointsForGlyph(gid tables.GlyphID, currentDepth int, allPoints
 			// recurse on component
 			var compPoints []contourPoint
 
-			if !f.getPointsForGlyph(item.GlyphIndex, currentDepth+1, &compPoints) {
+			if *edges <= 0 {
+				return false
+			}
+			*edges--
+			if !f.getPointsForGlyphRec(item.GlyphIndex, currentDepth+1, edges, &compPoints) {
 				// max depth reached or invalid component
 				return false
 			}
 			LC := len(compPoints)
+			if len(*allPoints)+LC > maxCompositePoints {
+				return false
+			}
 
 			/* Copy phantom points from component if USE_MY_METRICS flag set */
 			if item.HasUseMyMetrics() {
